@@ -126,6 +126,30 @@ func registerStdModels() {
 		return mkOr(ms...)
 	})
 	reg("strings.ContainsRune strings.ContainsAny strings.IndexAny strings.IndexRune", func(it *Interp, fr *frame, fn *ssa.Function, args []Value) Value {
+		if s0, ok := args[0].(Str); ok && s0.force().isConcrete() {
+			hs := s0.force().s
+			switch a := args[1].(type) {
+			case *Term:
+				if a.isConst() {
+					r := rune(a.sval())
+					switch fn.Name() {
+					case "ContainsRune":
+						return mkBool(strings.ContainsRune(hs, r))
+					case "IndexRune":
+						return mkInt(int64(strings.IndexRune(hs, r)))
+					}
+				}
+			case Str:
+				if a.force().isConcrete() {
+					switch fn.Name() {
+					case "ContainsAny":
+						return mkBool(strings.ContainsAny(hs, a.force().s))
+					case "IndexAny":
+						return mkInt(int64(strings.IndexAny(hs, a.force().s)))
+					}
+				}
+			}
+		}
 		hay := anyBytes(args[0])
 		var set []*Term
 		switch a := args[1].(type) {
@@ -616,4 +640,34 @@ func (it *Interp) mutexUnlock(fr *frame, p *Value, write bool) {
 		it.lockLog.unlock(fr, p)
 	}
 	it.yieldPoint(fr, "unlock")
+}
+
+func init() {
+	for _, w := range []int{8, 16, 32, 64} {
+		w := w
+		name := "math/bits.OnesCount" + fmt.Sprint(w)
+		if w == 64 {
+			reg("math/bits.OnesCount", func(it *Interp, fr *frame, fn *ssa.Function, args []Value) Value {
+				return popcount(args[0].(*Term), 64)
+			})
+		}
+		reg(name, func(it *Interp, fr *frame, fn *ssa.Function, args []Value) Value {
+			return popcount(args[0].(*Term), w)
+		})
+	}
+}
+
+func popcount(x *Term, w int) *Term {
+	if x.isConst() {
+		n := 0
+		for v := x.cv; v != 0; v &= v - 1 {
+			n++
+		}
+		return mkInt(int64(n))
+	}
+	sum := mkInt(0)
+	for i := 0; i < w; i++ {
+		sum = bvBin("bvadd", sum, bvZext(bvExtract(x, i, i), 64))
+	}
+	return sum
 }
